@@ -355,7 +355,8 @@ def to_argv(spec, transforms=None, with_loads=True):
             n += 1
             a.append('--load=' + _cz(l['z']))
             for at in l['attach']:
-                a.append('--attach-load=%d,%d' % (n, at[0] + 1) + ('' if len(at) < 2 or at[1] is None else ',%d' % at[1]))
+                first = 'all' if at[0] is None else str(at[0] + 1)
+                a.append('--attach-load=%d,%s' % (n, first) + ('' if len(at) < 2 or at[1] is None else ',%d' % at[1]))
     return a
 
 def add_sources(rng, spec, npulses, nsrc=None, grounded=()):
